@@ -53,6 +53,13 @@ REG = {
             "must agree on outputs and ctx after set_rng(default_rng(s)), re-injection must replay, global numpy/torch/random states "
             "must be untouched; failures are attributed to the first member generator the injected rng did not reach",
             "DESIGN.md §3 C07", TRUST),
+    "C08": ("exploration", "model-based testing over Hypothesis-generated operation sequences (access / perturb globals / rebuild / DataLoader pass)",
+            "seeded X/Y/source/target transform wrappers (registry transforms incl. composites), multi-view (1-3 configs), sample mix, "
+            "semseg, ImageNet-minaug / BYOL / MUGS wrappers, placed on the root, under a wrapper, above or below a subset; model = "
+            "first observed value per (index, item) incl. multi-view ctx; every later observation under perturbed global RNG state, "
+            "on an independently rebuilt instance, through DataLoaders with 0/2/3 workers and through every request form (item "
+            "alone / jointly / either order) must equal it; separate facet: different indices draw different streams",
+            "DESIGN.md §3 C08", TRUST + "; real worker processes are sampled, not scheduled"),
     "C16": ("exploration", "Hypothesis-generated label layouts and wrapper arguments vs. coherence/range/purity/reproducibility predicates",
             "10 facets (one per label-rewriting wrapper): bulk accessor vs per-sample accessor, labels within getshape_class or -1, "
             "x/len/root labels untouched (roots returning a new list, their internal list, ndarray, tensor), equal labels under two "
